@@ -1632,9 +1632,12 @@ impl TransportHandle {
         }
         let peer_id = peer_id.to_string();
         let remote_addr = NetworkAddress::from(remote_sock);
-        broadcast_event(&self.event_tx, P2PEvent::PeerConnected(peer_id.clone()));
         register_new_peer(&self.peers, &peer_id, &remote_addr).await;
-        self.active_connections.write().await.insert(peer_id);
+        self.active_connections
+            .write()
+            .await
+            .insert(peer_id.clone());
+        broadcast_event(&self.event_tx, P2PEvent::PeerConnected(peer_id));
     }
 
     /// Feed one received frame, authenticated as coming from `sender`, into
